@@ -903,6 +903,10 @@ fn c09_monitor(own: u16, recv_op: Operation, items: &[Vec<u8>], trace: &[Message
     None
 }
 
+fn recv_op(is_cfg: bool) -> Operation {
+    if is_cfg { Operation::ReceiveConfig } else { Operation::ReceivePixels }
+}
+
 fn gen_c09(ctx: &mut Ctx) {
     let mut rng = Rng::new(ctx.seed, 9);
     let thorough = ctx.tier_thorough;
@@ -928,11 +932,18 @@ fn gen_c09(ctx: &mut Ctx) {
             items.push(bytes_of_hex(p.split('.').nth(2).unwrap()));
             pages.push(p);
         }
-        if thorough && k == 1 {
-            // a single item at the 16-bit offset limit: 65536 bytes = 4096 chunks
-            let p = small_page(9, 65532 / 2, 16, &mut rng);
+        if k == 1 || (thorough && k == 5) {
+            // a single item at the 16-bit offset limit: 65536 bytes = 4096 chunks (last offset 65520)
+            let p = if k == 1 { small_page(9, 65532 / 2, 16, &mut rng) } else { small_page(9, 65532, 8, &mut rng) };
             items = vec![bytes_of_hex(p.split('.').nth(2).unwrap())];
             pages = vec![p];
+        }
+        if k == 2 {
+            // one chunk short of the limit, followed by a second item (offset restart after a long item)
+            let p = small_page(7, 65516 / 2, 16, &mut rng);
+            let q = small_page(8, 8, 8, &mut rng);
+            items = vec![bytes_of_hex(p.split('.').nth(2).unwrap()), bytes_of_hex(q.split('.').nth(2).unwrap())];
+            pages = vec![p, q];
         }
         let op = if is_cfg {
             items = vec![SIGN_TYPES[t].to_bytes().to_vec()];
@@ -997,6 +1008,38 @@ fn gen_c09(ctx: &mut Ctx) {
                 _ => false,
             });
             ctx.monitor(ok, "C09-config-block", &short_line, "");
+        }
+        // the acknowledgement of the receive request must be this sign's ack of THAT operation: replace it
+        // by an ack of another operation, an ack from another address, or a state report, and keep the rest
+        // of the cooperative script (a correct controller stops there and sends no data)
+        if script.len() < 400 {
+            let others: Vec<&str> = ["RCF", "RPX", "SLP", "LNP", "SRS", "FRS"].iter().copied().filter(|o| *o != str_op(recv_op(is_cfg))).collect();
+            let mut variants: Vec<String> = others.iter().map(|o| format!("AO.{}.{}", own, o)).collect();
+            variants.push(format!("AO.{}.{}", own ^ 1, str_op(recv_op(is_cfg))));
+            variants.push(format!("AO.{}.{}", own.wrapping_add(256), str_op(recv_op(is_cfg))));
+            variants.push(format!("RS.{}.{}", own, if is_cfg { "CIP" } else { "PIP" }));
+            variants.push("N".to_string());
+            let positions: Vec<usize> = (0..script.len().min(trace.len()))
+                .filter(|&i| matches!(&trace[i], Message::RequestOperation(_, o) if *o == recv_op(is_cfg)))
+                .collect();
+            for (pi, &i) in positions.iter().enumerate() {
+                let picks: Vec<String> = if k < 24 { variants.clone() } else { vec![rng.pick(&variants).clone(), rng.pick(&variants).clone()] };
+                for v in picks {
+                    if pi > 0 && k >= 24 && rng.chance(1, 2) {
+                        continue;
+                    }
+                    let mut s2 = script.clone();
+                    s2[i] = v;
+                    let (trace2, _, _) = run_ct(&op, &s2);
+                    let line2 = format!("CT {} {}", op, s2.join(" "));
+                    ctx.case(line2.clone(), true, "wrong-ack");
+                    let sc2: Vec<Reply> = s2.iter().map(|s| reply_of_str(s)).collect();
+                    let recv = recv_op(is_cfg);
+                    let v2 = c09_monitor(own, recv, &items, &trace2, &sc2);
+                    let short2 = if line2.len() > 2000 { format!("{}...", &line2[..2000]) } else { line2.clone() };
+                    ctx.monitor(v2.is_none(), "C09-transfer-shape", &short2, v2.as_deref().unwrap_or(""));
+                }
+            }
         }
         // truncated / deviating variants of the same conversation
         if script.len() > 2 {
